@@ -47,12 +47,12 @@ fn main() {
         "case" => mc::replay::adhoc(&args[2..]),
         "dump-classes" => mc::v8x::dump_classes(&args[2]),
         "dump-cases" => mc::v8x::dump(&args[2], args[3].parse().unwrap(), args[4].parse().unwrap(), &args[5]),
-        "C01" => sweep_cmd(Prop::C01, &["core", "capback", "anchor", "dotcap", "vset", "dupref", "look", "nest", "nestlook", "utf8", "icase", "lit", "onechar", "named", "mods"]),
-        "C02" => sweep_cmd(Prop::C02, &["core", "capback", "anchor", "dotcap", "vset", "dupref", "look", "nest", "nestlook", "utf8", "icase", "lit", "onechar", "named", "mods"]),
-        "C03" => sweep_cmd(Prop::C03, &["core", "capback", "anchor", "dotcap", "vset", "dupref", "look", "nest", "nestlook", "utf8", "icase", "lit", "onechar", "named", "mods"]),
+        "C01" => sweep_cmd(Prop::C01, &["core", "capback", "anchor", "dotcap", "vset", "dupref", "look", "nest", "nestlook", "utf8", "icase", "lit", "onechar", "named", "mods", "longlook", "vlook", "fail", "icaseback"]),
+        "C02" => sweep_cmd(Prop::C02, &["core", "capback", "anchor", "dotcap", "vset", "dupref", "look", "nest", "nestlook", "utf8", "icase", "lit", "onechar", "named", "mods", "longlook", "vlook", "fail", "icaseback"]),
+        "C03" => sweep_cmd(Prop::C03, &["core", "capback", "anchor", "dotcap", "vset", "dupref", "look", "nest", "nestlook", "utf8", "icase", "lit", "onechar", "named", "mods", "longlook", "vlook", "fail", "icaseback"]),
         "C04" => sweep_cmd(Prop::C04, &["core", "anchor", "look", "utf8", "icase", "lit", "onechar", "mods"]),
         "C05" => sweep_cmd(Prop::C05, &["loops", "nest", "nestlook", "core", "capback", "onechar"]),
-        "C09" => sweep_cmd(Prop::C09, &["core", "capback", "vset", "look", "utf8", "lit", "onechar"]),
+        "C09" => sweep_cmd(Prop::C09, &["core", "capback", "anchor", "vset", "look", "utf8", "lit", "onechar"]),
         "C13" => sweep_cmd(Prop::C13, &["core", "look", "nest", "icase", "lit", "onechar", "mods", "utf8"]),
         "c06-worker" => mc::c06::worker(&args[2]),
         "C06" => {
